@@ -26,7 +26,7 @@ func (e *Enc) implicitPre(fn *ssa.Function) []implPre {
 	if fn.Signature.Recv() != nil && len(fn.Params) > 0 {
 		if _, isPtr := under(fn.Params[0].Type()).(*types.Pointer); isPtr {
 			ct := e.cs.For(e.w.Names[fn])
-			if ct == nil || ct.Opts["nilrecv"] == "" {
+			if (ct == nil || ct.Opts["nilrecv"] == "") && !comparedWithNil(fn.Params[0]) {
 				out = append(out, implPre{kind: "recv", param: 0})
 			}
 		}
